@@ -44,6 +44,9 @@ func genProgs(rng *rand.Rand) [][]call {
 			switch x := rng.Intn(10); {
 			case x < 4:
 				d := []int{1, 1, 2, 3}[rng.Intn(4)]
+				if rng.Intn(40) == 0 {
+					d = []int{1 << 30, 1 << 31, 1<<32 - 1, 1 << 40}[rng.Intn(4)] // wide totals
+				}
 				progs[i] = append(progs[i], call{kind: "a", d: d})
 				bal += d
 			case x < 7 && bal > 0:
@@ -249,6 +252,8 @@ func dfsExact(variant string, progs [][]call, bound int, emit func(hx.Case), lim
 }
 
 var dfsPrograms = [][][]call{
+	// totals beyond 32 bits (a narrowed counter would wrap to zero and release the waiter)
+	{{{"a", 1 << 30}, {"a", 1 << 30}, {"a", 1 << 30}, {"a", 1 << 30}}, {{"w", 0}}},
 	{{{"a", 1}}, {{"w", 0}}, {{"a", -1}, {"a", 1}}, {{"a", -1}}},
 	{{{"a", 0}, {"w", 0}}, {{"a", 1}, {"a", -1}, {"a", 0}}},
 	{{{"a", 1}, {"a", -1}}, {{"a", 1}, {"a", -1}, {"a", 1}}, {{"w", 0}}},
